@@ -635,6 +635,15 @@ impl Memfs {
     ///
     /// * Handles path expansion and absolute path resolution
     /// * Provides link exclusion i.e. links even if pointing to a directory return false
+    // Returns true if the given path is a directory and not a link to one (link exclusion)
+    pub(crate) fn _is_real_dir<T: AsRef<Path>>(&self, guard: &MemfsGuard, path: T) -> bool {
+        let abs = unwrap_or_false!(self._abs(guard, path));
+        match guard.get_entry(&abs) {
+            Some(entry) => entry.is_dir() && !entry.is_symlink(),
+            None => false,
+        }
+    }
+
     pub(crate) fn _is_dir<T: AsRef<Path>>(&self, guard: &MemfsGuard, path: T) -> bool {
         let abs = unwrap_or_false!(self._abs(guard, path));
         match guard.get_entry(&abs) {
@@ -752,10 +761,14 @@ impl VirtualFileSystem for Memfs {
     /// ```
     fn all_dirs<T: AsRef<Path>>(&self, path: T) -> RvResult<Vec<PathBuf>> {
         let mut paths: Vec<PathBuf> = vec![];
-        if !self.is_dir(&path) {
+        // Check and snapshot under the same read guard so the listing is a consistent snapshot
+        let guard = self.read_guard();
+        if !self._is_real_dir(&guard, &path) {
             return Err(PathError::is_not_dir(&path).into());
         }
-        for entry in self.entries(path)?.min_depth(1).sort_by_name().into_iter().filter_p(|x| x.is_dir() && !x.is_symlink()) {
+        let entries = self._entries(&guard, path)?;
+        drop(guard);
+        for entry in entries.min_depth(1).sort_by_name().into_iter().filter_p(|x| x.is_dir() && !x.is_symlink()) {
             let entry = entry?;
             paths.push(entry.path_buf());
         }
@@ -785,10 +798,14 @@ impl VirtualFileSystem for Memfs {
     /// ```
     fn all_files<T: AsRef<Path>>(&self, path: T) -> RvResult<Vec<PathBuf>> {
         let mut paths: Vec<PathBuf> = vec![];
-        if !self.is_dir(&path) {
+        // Check and snapshot under the same read guard so the listing is a consistent snapshot
+        let guard = self.read_guard();
+        if !self._is_real_dir(&guard, &path) {
             return Err(PathError::is_not_dir(&path).into());
         }
-        for entry in self.entries(path)?.min_depth(1).sort_by_name().into_iter().filter_p(|x| x.is_file() && !x.is_symlink()) {
+        let entries = self._entries(&guard, path)?;
+        drop(guard);
+        for entry in entries.min_depth(1).sort_by_name().into_iter().filter_p(|x| x.is_file() && !x.is_symlink()) {
             let entry = entry?;
             paths.push(entry.path_buf());
         }
@@ -820,10 +837,14 @@ impl VirtualFileSystem for Memfs {
     /// ```
     fn all_paths<T: AsRef<Path>>(&self, path: T) -> RvResult<Vec<PathBuf>> {
         let mut paths: Vec<PathBuf> = vec![];
-        if !self.is_dir(&path) {
+        // Check and snapshot under the same read guard so the listing is a consistent snapshot
+        let guard = self.read_guard();
+        if !self._is_real_dir(&guard, &path) {
             return Err(PathError::is_not_dir(&path).into());
         }
-        for entry in self.entries(path)?.min_depth(1).sort_by_name() {
+        let entries = self._entries(&guard, path)?;
+        drop(guard);
+        for entry in entries.min_depth(1).sort_by_name() {
             let entry = entry?;
             paths.push(entry.path_buf());
         }
@@ -1236,10 +1257,14 @@ impl VirtualFileSystem for Memfs {
     /// ```
     fn dirs<T: AsRef<Path>>(&self, path: T) -> RvResult<Vec<PathBuf>> {
         let mut paths: Vec<PathBuf> = vec![];
-        if !self.is_dir(&path) {
+        // Check and snapshot under the same read guard so the listing is a consistent snapshot
+        let guard = self.read_guard();
+        if !self._is_real_dir(&guard, &path) {
             return Err(PathError::is_not_dir(&path).into());
         }
-        for entry in self.entries(path)?.min_depth(1).max_depth(1).sort_by_name().into_iter().filter_p(|x| x.is_dir() && !x.is_symlink()) {
+        let entries = self._entries(&guard, path)?;
+        drop(guard);
+        for entry in entries.min_depth(1).max_depth(1).sort_by_name().into_iter().filter_p(|x| x.is_dir() && !x.is_symlink()) {
             let entry = entry?;
             paths.push(entry.path_buf());
         }
@@ -1331,10 +1356,14 @@ impl VirtualFileSystem for Memfs {
     /// ```
     fn files<T: AsRef<Path>>(&self, path: T) -> RvResult<Vec<PathBuf>> {
         let mut paths: Vec<PathBuf> = vec![];
-        if !self.is_dir(&path) {
+        // Check and snapshot under the same read guard so the listing is a consistent snapshot
+        let guard = self.read_guard();
+        if !self._is_real_dir(&guard, &path) {
             return Err(PathError::is_not_dir(&path).into());
         }
-        for entry in self.entries(path)?.min_depth(1).max_depth(1).sort_by_name().into_iter().filter_p(|x| x.is_file() && !x.is_symlink()) {
+        let entries = self._entries(&guard, path)?;
+        drop(guard);
+        for entry in entries.min_depth(1).max_depth(1).sort_by_name().into_iter().filter_p(|x| x.is_file() && !x.is_symlink()) {
             let entry = entry?;
             paths.push(entry.path_buf());
         }
@@ -1810,10 +1839,14 @@ impl VirtualFileSystem for Memfs {
     /// ```
     fn paths<T: AsRef<Path>>(&self, path: T) -> RvResult<Vec<PathBuf>> {
         let mut paths: Vec<PathBuf> = vec![];
-        if !self.is_dir(&path) {
+        // Check and snapshot under the same read guard so the listing is a consistent snapshot
+        let guard = self.read_guard();
+        if !self._is_real_dir(&guard, &path) {
             return Err(PathError::is_not_dir(&path).into());
         }
-        for entry in self.entries(path)?.min_depth(1).max_depth(1).sort_by_name() {
+        let entries = self._entries(&guard, path)?;
+        drop(guard);
+        for entry in entries.min_depth(1).max_depth(1).sort_by_name() {
             let entry = entry?;
             paths.push(entry.path_buf());
         }
